@@ -37,6 +37,7 @@ def generate(ctx):
             d["combine"] = rng.choice(COMBINES)
             d["post"] = rng.random() < 0.5
             d["pre"] = rng.random() < 0.5
+            d["subset"] = rng.random() < 0.6
         else:
             d["trainable_feedback"] = rng.random() < 0.5
             d["transforms"] = rng.random() < 0.4
@@ -145,7 +146,12 @@ def _layer(desc, parts):
 def _inputs(desc, parts, g):
     B = desc["B"]
     if desc["kind"] == "biclique":
-        return {k: (torch.rand((B,) + tuple(c.inshape), generator=g) < desc["p"],) for k, c in parts.conns.items()}
+        x = {k: (torch.rand((B,) + tuple(c.inshape), generator=g) < desc["p"],) for k, c in parts.conns.items()}
+        if desc.get("subset") and len(x) > 1 and float(torch.rand(1, generator=g)) < 0.4:
+            # documented: only the connections named in the inputs are run on that call
+            keep = sorted(x)[: 1 + int(torch.randint(0, len(x) - 1, (1,), generator=g))]
+            x = {k: x[k] for k in keep}
+        return x
     first = parts.conns["serial" if desc["kind"] == "serial" else "feedfwd"]
     return (torch.rand((B,) + tuple(first.inshape), generator=g) < desc["p"],)
 
@@ -194,8 +200,8 @@ class _Hand:
                 v = c + 1.5
             return {"serial": p.neurons["serial"](v, **(_NKW if d.get("nkw") else {}))}, {"serial": c}
         if kind == "biclique":
-            inter = {k: p.conns[k](*x[k]) for k in p.conns}
-            vals = [(inter[k] * 2.0 if d["post"] and i == 0 else inter[k]) for i, k in enumerate(p.conns)]
+            inter = {k: p.conns[k](*x[k]) for k in p.conns if k in x}
+            vals = [(inter[k] * 2.0 if d["post"] and i == 0 else inter[k]) for i, k in enumerate(p.conns) if k in x]
             comb = _ref_combine(d["combine"], vals)
             outs = {}
             for j, (k, n) in enumerate(p.neurons.items()):
